@@ -1,14 +1,14 @@
 (* Props/C10.v — Only one handle writes a database at a time.
    Only statements, `exact`, and Print Assumptions.  Model: Conc/Handles.v
-   (current_locking = true: GraphEngine::open holds an exclusive OS lock on the data file). *)
+   (current_locking = LockFirst: GraphEngine::open takes the exclusive OS lock before it touches the files). *)
 From Coq Require Import List ZArith.
 From NDB Require Import Conc.Sched Conc.Handles Conc.Handles_proofs.
 Import ListNotations.
 
 (* For any number of handles (same or different processes), any operation lists
    (open / commit / compact / close / offline tool = vacuum or bulk load, in any order, repeated) and EVERY interleaving:
-   (1) at most one handle is open, (2) every write reached the files while its writer
-   held the lock, (3) the results form the history of a single handle that is opened and
+   (1) at most one handle is open, (2) every modification of the files - including whatever an open()
+   itself writes, successful or refused - was made while its writer held the lock, (3) the results form the history of a single handle that is opened and
    closed repeatedly; every other open was refused and operated on nothing. *)
 Definition C10_exclusive_statement : Prop :=
   forall (progs : list (list hop)) (sched : list nat),
@@ -24,7 +24,7 @@ Print Assumptions C10_exclusive.
    once, both write, and the result trace is not a single-handle history *)
 Definition C10_nolock_refuted_statement : Prop :=
   exists progs sched,
-    let c := hrun false sched (hinit progs) in
+    let c := hrun NoLock sched (hinit progs) in
     single_handle_history (results (Sched.shared c)) = false /\
     writes_by_holder (files (Sched.shared c)) = false.
 Theorem C10_nolock_refuted : C10_nolock_refuted_statement.
@@ -38,7 +38,22 @@ Print Assumptions C10_nolock_refuted.
    runs while a handle is open and writing *)
 Definition C10_offline_nolock_refuted_statement : Prop :=
   exists progs sched,
-    single_handle_history (results (Sched.shared (hrun false sched (hinit progs)))) = false.
+    single_handle_history (results (Sched.shared (hrun NoLock sched (hinit progs)))) = false.
 Theorem C10_offline_nolock_refuted : C10_offline_nolock_refuted_statement.
 Proof. exists [[HOpen; HCommit 1%Z]; [HOffline]], [0; 1; 0]. exact nolock_offline_under_open_handle. Qed.
 Print Assumptions C10_offline_nolock_refuted.
+
+(* a REFUSED open must not touch the files: if the lock is taken only after open() has opened the files and cut
+   the log's tail, every second open is still refused and the result trace still looks like a single-handle
+   history, but clause (2) fails - the files were written by a handle that never held the lock *)
+Definition C10_locklate_refuted_statement : Prop :=
+  exists progs sched,
+    let c := hrun LockLate sched (hinit progs) in
+    single_handle_history (results (Sched.shared c)) = true /\
+    writes_by_holder (files (Sched.shared c)) = false.
+Theorem C10_locklate_refuted : C10_locklate_refuted_statement.
+Proof.
+  exists [[HOpen; HCommit 1%Z]; [HOpen]], [0; 0; 1].
+  destruct locklate_refused_open_writes as (_ & A & B). exact (conj A B).
+Qed.
+Print Assumptions C10_locklate_refuted.
